@@ -29,6 +29,7 @@ type Knobs struct {
 	MaxMacro  int    `json:"max_macro,omitempty"`
 	MaxLogic  int    `json:"max_logical,omitempty"`
 	HandBuilt bool   `json:"hand_built,omitempty"` // the Runtime is a composite literal handed to NewEnvRuntime
+	Prelude   string `json:"prelude,omitempty"`    // source the host evaluates while setting this runtime up (its own configuration)
 	MaxSleepN int64  `json:"max_sleep_ns,omitempty"`
 	UseSimCtx bool   `json:"simctx,omitempty"` // entry points take the simulated context
 }
@@ -250,6 +251,11 @@ func NewWorld(k Knobs) (*World, error) {
 	w.Ctx = NewSimCtx(w)
 	if err := w.installProbes(); err != nil {
 		return nil, err
+	}
+	if k.Prelude != "" {
+		if rc := env.LoadString("prelude", k.Prelude); rc.Type == lisp.LError {
+			return nil, fmt.Errorf("prelude: %v", rc)
+		}
 	}
 	return w, nil
 }
